@@ -1,5 +1,5 @@
 (* entry points for document-level checks (dump / load / round trip) *)
-From PM Require Import Model.EntryBase Model.Manifests Model.Common Model.ManifestDocs Model.Images Model.EntryOps Base.Json.
+From PM Require Import Model.EntryBase Model.Manifests Model.Common Model.ManifestDocs Model.Images Model.EntryOps Base.Json Model.CiNormalB.
 
 Definition doc_and_text (d : pyval) : pyval := PList [d; PStr (print_json d)].
 
@@ -159,8 +159,13 @@ Definition ep_dump_ci (v : pyval) : pyval :=
   | Some x => out_result (fun d => PStr (print_json d)) (dump_ci x)
   end.
 
+(* does the object loaded from this document meet the hypotheses of the C01 document theorem? [normal form; distinct UIDs] *)
+Definition ep_ci_applicable (v : pyval) : pyval :=
+  out_result (fun x => PList [PBool (CiNormalB.ci_normalb x); PBool (CiNormalB.ci_distinct_uidsb x)]) (load_ci v).
+
 Definition entries_ci : list (str * (pyval -> pyval)) :=
-  [ (lit "roundtrip_ci", ep_roundtrip_ci); (lit "load_ci", ep_load_ci); (lit "dump_ci", ep_dump_ci) ].
+  [ (lit "roundtrip_ci", ep_roundtrip_ci); (lit "load_ci", ep_load_ci); (lit "dump_ci", ep_dump_ci);
+    (lit "ci_applicable", ep_ci_applicable) ].
 
 (* ---------------- treeinfo / discinfo *)
 From PM Require Import Model.TreeInfo Base.Ini Gen.Tables.
